@@ -38,8 +38,8 @@ CHECKS = {
             "Proved for all valid NFAs/DFAs (unbounded): whenever the subset construction returns (always up to 14 NFA states; fixed large "
             "budget beyond) the result is a valid DFA with exactly the NFA's language; NFA.from_dfa gives a valid NFA with the DFA's language; "
             "the comparators nfa_diff / nfa_dfa_diff used to judge implementation results decide language equality exactly. "
-            "eliminate_lambda: implementation results are judged on every run by the proved comparator (same language as the source), "
-            "validity, no empty-string key, all states reachable; the mirror model and its language theorem are part of C08 (partial here).",
+            "eliminate_lambda (mirror model shared with C08): total, valid result, same language, no empty-string transition left; "
+            "'no unreachable state' is checked on the implementation's result by extracted code on every run, not proved of the model.",
             "", "7/C07"),
     "C09": ("Coq theorems about the verified NFA comparator (subset construction on the fly) + differential correspondence",
             "Proved for all valid NFA pairs (unbounded): whenever == / != return (always for <= 14 states in total) they are exactly language "
